@@ -284,6 +284,36 @@ pub mod noise {
 
 pub mod simplex {
     use super::*;
+
+    /// |out| <= 1 at concrete phases spread over the whole wrap range [0, 65536) - including both
+    /// sides of 2^15, 2^8 and the top of the range (the symbolic amplitude bound is out of reach:
+    /// nine dependent symbolic f64 products; concrete phases are folded by the solver)
+    #[kani::proof]
+    #[kani::unwind(16)]
+    pub fn amplitude_at_concrete_phases() {
+        const PS: [f64; 12] = [0.0, 0.25, 0.5, 0.75, 127.9, 255.5, 256.25, 32767.5, 32768.5, 40000.3, 65535.1, 65535.9];
+        let mut i = 0;
+        while i < 12 {
+            let mut s = Phase::verif_from_state(StepProbe { step: 0.0, calls: 0 }, PS[i]).noise_simplex();
+            let y = s.next_sample();
+            assert!(y >= -1.0 && y <= 1.0, "simplex noise within [-1, 1]");
+            i += 1;
+        }
+        kani::cover!(true, "end");
+    }
+
+    /// a coarse symbolic amplitude bound (|out| <= 8 follows from |grad| <= 8 and the falloff being in [0,1]):
+    /// far weaker than [-1, 1] but it holds for EVERY phase and refutes gross errors in the corner arithmetic
+    #[cfg(feature = "thorough")]
+    #[kani::proof]
+    pub fn coarse_amplitude_bound_any_phase() {
+        let p: f64 = kani::any();
+        kani::assume(p >= 0.0 && p < 65536.0);
+        let mut s = Phase::verif_from_state(StepProbe { step: 0.0, calls: 0 }, p).noise_simplex();
+        let y = s.next_sample();
+        assert!(y >= -8.0 && y <= 8.0, "coarse bound");
+        kani::cover!(true, "end");
+    }
     /// from any stored phase in [0, 65536): table indices stay in bounds (Kani's own bounds checks),
     /// the result is finite; 0 at integer coordinates. |out| <= 1 is NOT decided here.
     #[kani::proof]
